@@ -213,6 +213,16 @@ def typed_helpers(F, S, run):
             if len(rs) != 1:
                 raise AnalysisBroken("Reader::Read<SizeType,T>: expected one resize() in %s" % fn.key)
             nd = rs[0]
+            # whatever the prefix says (0 included), the destination ends up with exactly that many elements: the resize is on
+            # every returning path (an early return for an empty record would leave the destination's old contents in place)
+            from ..through import on_every_returning_path
+            if on_every_returning_path(fn, [nd["id"]]):
+                out.append(ok("R-MUSTCALL", "%s#always-resized" % fn.key, fn.loc(nd["id"]), fn.qn,
+                              "the container is resized to the stored count on every returning path", "resize on every path", nontrivial=False))
+            else:
+                out.append(bad("R-MUSTCALL", "%s#always-resized" % fn.key, fn.loc(nd["id"]), fn.qn,
+                               "the container is resized to the stored count on every returning path",
+                               "a path returns without the resize: a record of that size leaves the destination as it was (stale elements)"))
             site = final_site_facts(eng, fn, nd["id"]) or set()
             cnt = fn.term(nd["args"][0])
             pv = ("var", fn.params[0]["n"], fn.params[0]["d"])
